@@ -473,6 +473,61 @@ def home_case(item):
     return part
 
 
+def tilde_case(item):
+    """file-system backends with a relative base directory (`python -m aioftp` without --home serves "."): names that
+    a shell or `expanduser` would take for a home directory (`~`, `~root`) are plain names - judged on the real file
+    system: nothing outside the served directory is read or changed"""
+    backend, name = item
+    import os
+    from vf.rig import Rig
+    part = report.Partial()
+    problems = []
+    rig = Rig(backend=backend, tree={"served": {"pub": {"p": b"1"}}, "home": {"secret.txt": b"HOME-SECRET"}},
+              users=lambda a, base: [a.User(base_path=".")])
+    old_cwd, old_home = os.getcwd(), os.environ.get("HOME")
+    try:
+        os.chdir(rig.base / "served")
+        os.environ["HOME"] = str(rig.base / "home")
+        rig.ev(0, "@connect")
+        rig.ev(0, "USER anonymous")
+        got = {}
+        for line in (f"MKD {name}", "EPSV", "@data", f"STOR {name}/note.txt", "@dsend written-by-client", "@dclose",
+                     "EPSV", "@data", "STOR tmp.txt", "@dsend x", "@dclose", "RNFR tmp.txt", f"RNTO {name}/secret.txt",
+                     "EPSV", "@data", f"RETR {name}/secret.txt", "EPSV", "@data", f"RETR /{name}/note.txt",
+                     "EPSV", "@data", f"APPE {name}/secret.txt", "@dsend y", "@dclose"):
+            r = rig.ev(0, line)
+            if line.startswith("RETR"):
+                s0 = rig.sessions[0]
+                got[line] = bytes(s0.data.received) if s0.data is not None else None
+        snap = rig.snapshot()
+        home_now = {k: v for k, v in snap.items() if k.startswith("/home/")}
+        if home_now != {"/home/secret.txt": b"HOME-SECRET"}:
+            problems.append({"kind": "changed-outside-the-base-directory", "home": {k: repr(v) for k, v in home_now.items()}})
+        if any(v is not None and b"HOME-SECRET" in v for v in got.values()):
+            problems.append({"kind": "read-outside-the-base-directory", "got": {k: repr(v) for k, v in got.items()}})
+        if snap.get(f"/served/{name}/note.txt") != b"written-by-client":
+            problems.append({"kind": "upload-not-where-it-was-addressed", "tree": sorted(snap)})
+        if got.get(f"RETR /{name}/note.txt") != b"written-by-client":
+            problems.append({"kind": "download-not-from-where-it-was-addressed", "got": {k: repr(v) for k, v in got.items()}})
+        part.evaluations += 1
+        part.traces += 1
+        part.transitions += rig.world.net.n_events
+        k = report.fp(["tilde", backend, name])
+        part.states.add(k)
+        part.nontrivial.add(k)
+        for p_ in problems[:1]:
+            part.violation({"kind": p_["kind"], "backend": backend, "relative_base": True}, {"problem": p_, "name": name},
+                           replay={"tilde": list(item)})
+    finally:
+        os.chdir(old_cwd)
+        if old_home is None:
+            os.environ.pop("HOME", None)
+        else:
+            os.environ["HOME"] = old_home
+        rig.close()
+    return part
+
+
 def late_case(item):
     """the working directory changes between a transfer verb and the arrival of its data connection: the location
     actually addressed (and every backend call) must be the one the verb named when it arrived"""
@@ -546,6 +601,7 @@ def run(tier, seed, t0):
     parts += pparts
     parts += report.pmap(glob_case, [(b, wh) for b in ("pathio", "async") for wh in ("name", "base")])
     parts += report.pmap(home_case, [(h,) for h in HOMES])
+    parts += report.pmap(tilde_case, [(b, n) for b in ("pathio", "async") for n in ("~", "~root", "~nobody", "$HOME", "%HOME%")])
     parts += report.pmap(pipelined_relogin_work, [({"first": first, "cmd": cmd}, 1 if tier == "quick" else 2)
                                                   for first in ("alice", "bob") for cmd in PIPE_BEFORE_USER])
     part = report.merge_all(parts)
@@ -554,6 +610,7 @@ def run(tier, seed, t0):
               "wire": {"segments": WSEGS, "verbs": WVERBS, "cwd_histories": WCWD_HISTS,
                        "max_segments": "2 (3 for CWD/STOR/RETR)" if tier == "quick" else 3},
               "home_paths": HOMES,
+              "relative_base": "file-system backends serving '.', names ~ ~root ~nobody $HOME %HOME%: judged on the real file system",
               "shell_pattern_names": "file-system backends: names `[s]ecret`, `p?b`, `*` and a base directory `ftp[1]` next to `ftp1`",
               "pipelined_relogin": "a command and USER <other user> in one segment, path checks suspended (<= d completion-order "
                                    "deviations): no backend call and no change in the other user's base directory",
@@ -575,6 +632,10 @@ def run(tier, seed, t0):
 def replay(path):
     data = json.loads(open(path).read())
     rp = data["replay"]
+    if "tilde" in rp:
+        part = tilde_case(tuple(rp["tilde"]))
+        print(json.dumps([v["detail"] for v in part.violations], indent=1, default=repr))
+        return 1 if part.violations else 0
     if "home" in rp:
         part = home_case(tuple(rp["home"]))
         print(json.dumps([v["detail"] for v in part.violations], indent=1, default=repr))
